@@ -74,6 +74,14 @@ Definition ref_decode (e : enc) (bs : bytes) : text :=
   | Ascii => map (fun b => if b <? 128 then b else REPL) bs
   end.
 
+(** "the effective encoding": the [encoding=] keyword if given, else the configured
+    [run.encoding], else the interpreter's locale encoding. *)
+Definition effective_encoding (kwarg config : option enc) (locale : enc) : enc :=
+  match kwarg with
+  | Some e => e
+  | None => match config with Some e => e | None => locale end
+  end.
+
 (** Documented meaning of [hide] (run() docstring): which streams are hidden;
     "both"/True hide both, "out"/"stdout" and "err"/"stderr" one, None/False
     none; an explicitly given stream object is never hidden; asynchronous runs
